@@ -49,7 +49,8 @@ type actD struct {
 	V      valD   `json:"v,omitempty"`
 	Idx    int    `json:"idx,omitempty"`
 	Name   string `json:"name,omitempty"`
-	Ms     int    `json:"ms,omitempty"`
+	Ms     int    `json:"ms,omitempty"` // timeout: Ms milliseconds + Us microseconds
+	Us     int    `json:"us,omitempty"`
 	Ap     string `json:"ap,omitempty"` // absent ok empty nil fail-res fail-plain
 	Rev    []kvD  `json:"rev,omitempty"`
 	Ret    valD   `json:"ret,omitempty"`
@@ -266,7 +267,7 @@ func actTerm(a actD) string {
 	case "reset":
 		return "AReset"
 	case "timeout":
-		return "ATimeout " + Z(a.Ms)
+		return "ATimeout " + Z(a.Ms*1000+a.Us)
 	case "reply":
 		return "AReply"
 	}
@@ -600,7 +601,7 @@ func (h *H) runScript(ci int, r res.Resource, req res.CallRequest) {
 		switch a.Op {
 		case "timeout":
 			if req != nil {
-				req.Timeout(time.Duration(a.Ms) * time.Millisecond)
+				req.Timeout(time.Duration(a.Ms)*time.Millisecond + time.Duration(a.Us)*time.Microsecond)
 			}
 		case "reply":
 			if req != nil {
@@ -1103,7 +1104,17 @@ func (g *gen) baseAction(op string) actD {
 		a.Name = g.r.Pick(goodNames)
 		a.V = g.val(false)
 	case "timeout":
-		a.Ms = g.r.Intn(5000)
+		switch k := g.r.Intn(10); {
+		case k < 2:
+			a.Ms = 0
+		case k < 5:
+			a.Ms = 1000 * g.r.Intn(4) // few values: equal / decreasing / increasing sequences are common
+		default:
+			a.Ms = g.r.Intn(5000)
+		}
+		if g.r.Chance(25) {
+			a.Us = g.r.Intn(1000)
+		}
 	}
 	return a
 }
@@ -1139,7 +1150,7 @@ func (g *gen) action(sd setupD, ctx string, last bool) actD {
 			a.Vals = nil
 			a.NilMap = g.r.Bool()
 		case "timeout":
-			a.Ms = -1 - g.r.Intn(10)
+			a.Ms, a.Us = -g.r.Intn(10), -1-g.r.Intn(999)
 		}
 	}
 	if g.r.Chance(3) {
@@ -1571,6 +1582,34 @@ func main() {
 			d := g.randomCase()
 			d.Restart = g.r.Pick([]string{"idle", "inflight-with", "inflight-call", "inflight-with"})
 			add("restart", d)
+		}
+		// (i) pre-responses: every Timeout(d), d >= 0, publishes its own timeout:"<ms>" whatever was sent
+		// before: decreasing, equal, increasing, zero and sub-millisecond durations, several in a row,
+		// interleaved with events, after the reply
+		tmo := func(us int) actD { return actD{Op: "timeout", Ms: us / 1000, Us: us % 1000} }
+		for si, seq := range [][]int{
+			{5000000, 2000000}, {2000000, 2000000}, {1000000, 3000000}, {0}, {0, 0}, {3000000, 0}, {0, 3000000, 0},
+			{500}, {999, 1}, {1500, 1400}, {1400, 1500}, {1, 0}, {2500500, 2500499}, {5000000, 4000000, 3000000, 2000000, 1000000},
+			{1000000, 2000000, 1000000, 2000000}, {7000, 7000, 7000}, {60000000, 1},
+		} {
+			for _, inter := range []int{0, 1, 2} { // 0: timeouts in a row; 1: an event between them; 2: reply first
+				mode := []string{"direct", "pattern", "mount", "root"}[(si+inter)%4]
+				sd := setupD{Mode: mode, Type: "unset", Apply: allApply(si%2 == 0), Steps: g.steps(mode, inter)}
+				var acts []actD
+				if inter == 2 {
+					acts = append(acts, actD{Op: "reply"})
+				}
+				for _, us := range seq {
+					acts = append(acts, tmo(us))
+					if inter == 1 {
+						acts = append(acts, g.withApply(g.baseAction(evOps[(si+us)%6]), sd, "ok"))
+					}
+				}
+				if inter != 2 {
+					acts = append(acts, actD{Op: "reply"})
+				}
+				add("timeouts", single(sd, "call", acts...))
+			}
 		}
 		// (d) random groups
 		n := 600
